@@ -1338,6 +1338,22 @@ def c09(run):
     chainmut_stage(run, driver, 3000 if run.tier == "quick" else 60000, "L3 wire mutation (sealed and unsealed tokens)")
     foreign_stage(run, driver)
     corpus_stage(run, driver)
+    # the wire family's tokens (all term kinds, 1-4 blocks, contexts, root key ids, caller-supplied BASE symbol tables), each sealed:
+    # the sealed token must print, identify and authorize like the open one, in memory and after a round trip
+    wc = [dict(c, seal=True, id="w" + str(c["id"])) for c in gen_cases(run, driver, "wire")]
+    wres = core.run_driver(driver, "wire", wc, per_case_timeout=120)
+    nrep = 0
+    for c in wc:
+        o = wres[c["id"]]
+        run.count(("sealed-wire", c["id"]))
+        if "harness" in o:
+            raise Infra("wire harness: " + o["harness"])
+        msgs = ["process died: " + o.get("stderr", "")[-300:]] if o.get("crash") else [m for m in o.get("roundtrip", []) if "sealing" in m or "differ after Unmarshal" in m]
+        if msgs and nrep < 20:
+            nrep += 1
+            rc = confirm_case(driver, "wire", c, o, ("roundtrip",))
+            run.report({"what": msgs[0][:70], "sealed": True}, wp(c, rc), "wire", "sealed " + wire_text(c) + ": " + "; ".join(msgs), (lambda rc=rc: rc is not None))
+    run.traces += len(wc)
     # same authorization outcome sealed vs unsealed: the two-block Authz instances with the token sealed
     insts = []
     ra = core.tlc(run.work, "AuthzMC", "AuthzMC_two", timeout=3000)
